@@ -71,15 +71,15 @@ Definition known_dup_definite (d : option plutus_list) : bool :=
 Definition known_empty_datums (d : option plutus_list) : bool :=
   match d with Some l => is_nil (pl_elems l) | None => false end.
 
-(* outside the statement for the stand-alone helper: NO redeemers together with either the legacy array container
-   (written 80; the witness set omits the field and the Conway ledger hashes A0) or datums plus a non-empty
-   cost-model table (the helper then follows the CDDL note "A0 | datums | A0" and ignores the table).  No
-   transaction accepted by the ledger is in this class: without redeemers no Plutus script runs, so no language
-   is in use. *)
-Definition helper_out_of_scope (r : redeemers) (cm : costmdls) (d : option plutus_list) : bool :=
-  is_nil (rs_list r) &&
-  (match rs_format r with Some CArray => true | _ => false end
-   || (is_some d && negb (is_nil (cm_keys cm)))).
+(* the languages in use for the stand-alone helper: those of the cost-model table handed over, unless there are no
+   redeemers — without redeemers no Plutus script runs, so no language is in use (the CDDL note: A0 | datums | A0) *)
+Definition helper_langs (r : redeemers) (cm : costmdls) : list lang :=
+  if is_nil (rs_list r) then [] else cm_keys cm.
+
+(* outside the statement for the stand-alone helper: neither redeemers nor datums.  The ledger then carries NO
+   script_data_hash at all (when no language is in use either), so there is nothing the helper's result could equal. *)
+Definition helper_out_of_scope (r : redeemers) (d : option plutus_list) : bool :=
+  is_nil (rs_list r) && (match d with Some l => is_nil (pl_elems l) | None => true end).
 
 (* ------------------------------------------------------------------ histories *)
 
@@ -202,10 +202,10 @@ Variable H : bytes -> bytes.
    redeemers and datums ([ws] = that witness set as serialised by the implementation) *)
 Definition judge_helper (r : redeemers) (cm : costmdls) (d : option plutus_list)
     (reported : bytes) (ws : bytes) : verdict :=
-  if helper_out_of_scope r cm d then NotApplicable else
+  if helper_out_of_scope r d then NotApplicable else
   match map_slices ws with
   | Ok wf =>
-      let expected := H (ledger_preimage (field_slice 5 wf) (field_slice 4 wf) (spec_views (cm_keys cm) cm)) in
+      let expected := H (ledger_preimage (field_slice 5 wf) (field_slice 4 wf) (spec_views (helper_langs r cm) cm)) in
       if bytes_eqb reported expected then Holds
       (* the two repaired defects are recognised by their exact symptom: the hash of the defective preimage *)
       else if known_dup_definite d && bytes_eqb reported (H (script_data_preimage_gen true false r cm d)) then Fails 1
